@@ -3,7 +3,7 @@ import numpy as np
 from mb import B, BO, S
 from ops import G
 
-def rand_graph(g, rng, n_ops=6, allow_unsupported=True, allow_emb=True, in_kind=None):
+def rand_graph(g, rng, n_ops=6, allow_unsupported=True, allow_emb=True, in_kind=None, allow_bmm_const=True):
     """Populate subgraph g; returns list of output tensor ids."""
     kind = in_kind or rng.choice(['r2', 'r3', 'r4'], p=[0.45, 0.2, 0.35])
     if kind == 'r2': x = g.inp((int(rng.integers(1, 3)), int(rng.choice([4, 6, 8]))))
@@ -25,7 +25,7 @@ def rand_graph(g, rng, n_ops=6, allow_unsupported=True, allow_emb=True, in_kind=
         cands = ['tanh', 'logistic', 'gelu', 'softmax', 'add', 'sub', 'mul', 'reshape', 'transpose', 'mean', 'concat', 'strided_slice', 'split', 'rsqrt']
         if allow_unsupported: cands += ['relu', 'abs', 'neg', 'maximum']
         if r in (2, 3): cands += ['fc', 'fc', 'fc']
-        if r == 3: cands += ['bmm', 'bmm_act']
+        if r == 3: cands += (['bmm'] if allow_bmm_const else []) + ['bmm_act']
         if r == 4: cands += ['conv', 'conv', 'dwconv', 'tconv', 'avgpool']
         k = str(rng.choice(cands)); ins = [t]
         if k == 'fc': outs = [g.fc(t, int(rng.choice([3, 4, 8])), bias=rng.random() < 0.7, act=int(rng.choice([0, 1, 3])), keep=(r == 3 and rng.random() < 0.7))]
